@@ -23,21 +23,22 @@ const (
 // Tokenizer is a reusable JSON tokenizer. It can be reused for multiple parsings
 // which allows buffer reuse for a performance advantage.
 type Tokenizer struct {
-	tmp       []byte // used for numbers and strings
-	runeBytes []byte
-	starts    []byte
-	handler   oj.TokenHandler
-	line      int
-	noff      int // Offset of last newline from start of buf. Can be negative when using a reader.
-	ri        int // read index for null, false, and true
-	mi        int
-	num       gen.Number
-	rn        rune
-	hi        rune // pending high surrogate of a \uXXXX escape
-	hiEnd     int  // len(tmp) just after hi was appended
-	mode      string
-	cmode     string // mode to return to at the end of a comment
-	exkey     bool
+	tmp        []byte // used for numbers and strings
+	runeBytes  []byte
+	starts     []byte
+	handler    oj.TokenHandler
+	line       int
+	noff       int // Offset of last newline from start of buf. Can be negative when using a reader.
+	ri         int // read index for null, false, and true
+	mi         int
+	num        gen.Number
+	rn         rune
+	hi         rune // pending high surrogate of a \uXXXX escape
+	hiEnd      int  // len(tmp) just after hi was appended
+	mode       string
+	cmode      string // mode to return to at the end of a comment
+	exkey      bool
+	quoteDelim byte
 
 	// OnlyOne returns an error if more than one JSON is in the string or stream.
 	OnlyOne bool
@@ -252,6 +253,7 @@ func (t *Tokenizer) tokenizeBuffer(buf []byte, last bool) {
 			}
 			off += i
 		case valQuote:
+			t.quoteDelim = b
 			start := off + 1
 			if len(buf) <= start {
 				t.tmp = t.tmp[:0]
@@ -264,7 +266,7 @@ func (t *Tokenizer) tokenizeBuffer(buf []byte, last bool) {
 				}
 			}
 			off += i
-			if b == '"' {
+			if b == t.quoteDelim {
 				off++
 				t.addString(string(buf[start:off]))
 			} else {
@@ -379,7 +381,11 @@ func (t *Tokenizer) tokenizeBuffer(buf []byte, last bool) {
 			off += i
 		case strQuote:
 			t.hi = 0
-			t.addString(string(t.tmp))
+			if b == t.quoteDelim {
+				t.addString(string(t.tmp))
+			} else {
+				t.tmp = append(t.tmp, b)
+			}
 		case numZero:
 			t.mode = zeroMap
 		case numDigit:
